@@ -2058,8 +2058,9 @@ int state_check(struct snapraid_state* state, int fix, block_off_t blockstart, b
 
 	error = 0;
 
-	/* skip degenerated cases of empty parity, or skipping all */
-	if (blockstart < blockmax) {
+	/* skip the degenerated case of skipping all, but not the one of empty parity */
+	/* because empty files, links and dirs have always to be processed */
+	if (blockstart < blockmax || blockmax == 0) {
 		ret = state_check_process(state, fix, parity_ptr, blockstart, blockmax);
 		if (ret == -1) {
 			/* LCOV_EXCL_START */
